@@ -743,7 +743,7 @@ impl OsIpcOneShotServer {
         unsafe {
             let sockaddr: *mut sockaddr = ptr::null_mut();
             let sockaddr_len: *mut socklen_t = ptr::null_mut();
-            let client_fd = libc::accept(self.fd, sockaddr, sockaddr_len);
+            let client_fd = libc::accept4(self.fd, sockaddr, sockaddr_len, SOCK_FLAGS);
             if client_fd < 0 {
                 return Err(UnixError::last());
             }
@@ -864,7 +864,10 @@ impl Drop for OsIpcSharedMemory {
 impl Clone for OsIpcSharedMemory {
     fn clone(&self) -> OsIpcSharedMemory {
         unsafe {
-            let store = BackingStore::from_fd(libc::dup(self.store.fd()));
+            // Like every other descriptor of this crate, the copy must not leak into child processes.
+            let fd = libc::fcntl(self.store.fd(), libc::F_DUPFD_CLOEXEC, 0);
+            assert!(fd >= 0);
+            let store = BackingStore::from_fd(fd);
             let (address, _) = store.map_file(Some(self.length));
             OsIpcSharedMemory::from_raw_parts(address, self.length, store)
         }
